@@ -236,7 +236,7 @@ def sri_edge_worker(ctx, job):
                     else:
                         got = rep["ok"]
                     if isinstance(got, dict):
-                        same = want is not None and got["integrity"].split() == want["integrity"].split() and got["size"] == want["size"] and str(got["time"]) == str(want["time"])
+                        same = want is not None and sorted(got["integrity"].split()) == sorted(want["integrity"].split()) and got["size"] == want["size"] and str(got["time"]) == str(want["time"])
                     else:
                         same = got is None and want is None
                     V.outcome(res, "edge:%s" % ("usable" if usable else "unusable"))
